@@ -152,6 +152,9 @@ def module_text(ir, k, nstmts=None):
     out.append('fn peek_class() { var r = "leak"; try { r = MainOnlyClass; r = "leak"; } catch e { r = type(e); } return r; }')
     out.append('fn peek_fn() { var r = "leak"; try { r = record; r = "leak"; } catch e { r = type(e); } return r; }')
     out.append('fn builtins() { return (type(1) == Num, [1, 2].len(), "ab".len(), [Fiber, Vec, HashMap, Tuple].len()); }')
+    # every built-in class by name (clock and Range are rebound above on purpose), and the built-in functions
+    out.append('fn builtin_classes() { return %s; }' % BUILTIN_CLASSES)
+    out.append('fn builtin_fns() { return (type(type) == BuiltIn, type(print) == BuiltIn, type(builtin_fns) == Func, type([].push) == BuiltInMethod, type(acc0.add) == Method); }')
     if m["lazy"] is not None:
         t = ir["mods"][m["lazy"]]
         out.append('fn lazy() { import "%s"; return %s.getg(); }' % (t["path"], t["bind"]))
@@ -194,11 +197,15 @@ def module_text(ir, k, nstmts=None):
     return "\n".join(out) + "\n"
 
 
+BUILTIN_CLASSES = "[Type, Object, Nil, Bool, Num, Func, BuiltIn, Method, BuiltInMethod, String, Iter, MapIter, FilterIter, Tuple, Vec, HashMap, Fiber]"
+
+
 def render(ir):
     n = len(ir["mods"])
     out = []
     e = out.append
     e("var gv = 7;")
+    e("fn same_builtins(v) { var mine = %s; var n = 0; for i in 0..mine.len() { if v[i] == mine[i] { n = n + 1; } } return n * 100 + v.len(); }" % BUILTIN_CLASSES)
     e("var main_only = 1;")
     e("class MainOnlyClass { fn m(self) { return 1; } }")
     for k, m in enumerate(ir["mods"]):
@@ -228,7 +235,7 @@ def render(ir):
     e('    if type(r) == String { print(("ev", "fib", k, r)); } else { print(("ev", "fib", k, r != nil)); record(k, r); }')
     e("  } else if a == 8 {")
     e("    if mods[k] != nil {")
-    e('      print(("ev", "iso", k, mods[k].peek(), mods[k].builtins(), mods[k].own, mods[k].peek_class(), mods[k].peek_fn(), mods[k].shadowed(), mods[k].pushit(7).len(), mods[k].addit(2), mods[k].Acc.new() != nil));')
+    e('      print(("ev", "iso", k, mods[k].peek(), mods[k].builtins(), mods[k].own, mods[k].peek_class(), mods[k].peek_fn(), mods[k].shadowed(), mods[k].pushit(7).len(), mods[k].addit(2), mods[k].Acc.new() != nil, same_builtins(mods[k].builtin_classes()), mods[k].builtin_fns()));')
     e('      try { mods[k].MainOnlyClass; print(("ev", "attr-leak", k)); } catch e { print(("ev", "attr2", k, type(e))); }')
     e('      try { mods[k].no_such_attribute; } catch e { print(("ev", "attr", k, type(e))); }')
     e('      try { print(("ev", "leak", own)); } catch e { print(("ev", "noleak", type(e))); }')
@@ -463,7 +470,7 @@ def model(ir, tape, faults, chooser=None):
                     isos[k] += 1
                     ev.append([s("iso"), num(k), cls("NameError"), tup(b(True), num(2), num(2), num(4)), num(k),
                                cls("NameError"), cls("NameError"), tup(num(5000 + k), num(6000 + k)),
-                               num(1 + isos[k]), num(2 * isos[k]), b(True)])
+                               num(1 + isos[k]), num(2 * isos[k]), b(True), num(1717), tup(b(True), b(True), b(True), b(True), b(True))])
                     ev.append([s("attr2"), num(k), cls("AttributeError")])
                     ev.append([s("attr"), num(k), cls("AttributeError")])
                     ev.append([s("noleak"), cls("NameError")])
